@@ -80,6 +80,11 @@ structure BoolTable where
   typeBoolExactL : List Nat
   enumCountL : List Nat
   mutableL : List Bool
+  /-- behaviour of `_visit_single_compare` for `<literal> <op> len(x)` (probed on the live tree):
+  `true` = the operator is mirrored before the constraint is built (correct), `false` = the
+  operator is used as written, as if the comparison were `len(x) <op> <literal>` (the defect
+  `reversedLenCompare`) -/
+  lenRevMirrored : Bool := false
   deriving Repr, Inhabited
 
 namespace BoolTable
@@ -200,12 +205,17 @@ def CmpOp.eval (op : CmpOp) (a b : Int) : Bool :=
 def CmpOp.neg : CmpOp → CmpOp
   | .eq => .ne | .ne => .eq | .lt => .ge | .le => .gt | .gt => .le | .ge => .lt
 
+/-- the operator with its operands exchanged: `a op b ↔ b op.mirror a` -/
+def CmpOp.mirror : CmpOp → CmpOp
+  | .eq => .eq | .ne => .ne | .lt => .gt | .le => .ge | .gt => .lt | .ge => .le
+
 /-- The predicate objects a `predicate` constraint carries. -/
 inductive Pred where
   | isAssignable (pat : Ty) (positiveOnly : Bool)
   | equals (l : Obj) (useIs : Bool)
   | inP (container : Obj)
   | len (op : CmpOp) (n : Int)
+  | always                       -- patma.py:172 `AlwaysMatching` (wildcard / capture pattern)
   deriving Repr, Inhabited
 
 /-- `_deliteral` (value.py:3372) -/
@@ -321,6 +331,7 @@ def applyPred (tbl : ClassTable) (T : BoolTable) (p : Pred) (v : Ty) (pos : Bool
             some (enumRest T e fun j => elems.any fun x => Obj.pyEq (.inst e j) x)
           else some v
         | _, _ => some v
+  | .always => if pos then some v else none
   | .len op n =>
     match lenOfValue T v with
     | some k =>
@@ -496,6 +507,7 @@ inductive Cond where
   | inC (container : Obj) | notIn (container : Obj)
   | truthy                          -- if x:
   | len (op : CmpOp) (n : Int)      -- len(x) <op> n
+  | lenRev (op : CmpOp) (n : Int)   -- n <op> len(x)   (the literal on the left)
   | typeIs (t : Ty)                 -- f(x) with f returning TypeIs[t]
   | typeGuard (t : Ty)              -- f(x) with f returning TypeGuard[t]
   | matchClass (c : Cls)            -- case C():
@@ -504,7 +516,7 @@ inductive Cond where
   deriving Repr, Inhabited
 
 /-- the constraint for the branch in which the condition holds -/
-def Cond.k : Cond → K
+def Cond.k (T : BoolTable) : Cond → K
   | .isinst cs => .predicate (.isAssignable (unite (cs.map .typed)) false) true
   | .issub cs => .predicate (.isAssignable (unite (cs.map .subclass)) false) true
   | .is l => .predicate (.equals l true) true
@@ -515,6 +527,8 @@ def Cond.k : Cond → K
   | .notIn c => .predicate (.inP c) false
   | .truthy => .isTruthy true
   | .len op n => .predicate (.len op n) true
+  -- name_check_visitor.py:3560 `_constraint_from_predicate_provider(rhs_constraint, lhs.val, op)`
+  | .lenRev op n => .predicate (.len (if T.lenRevMirrored then op.mirror else op) n) true
   | .typeIs t => .predicate (.isAssignable t false) true
   | .typeGuard t => .isValueObject t true
   | .matchClass c => .predicate (.isAssignable (.typed c) true) true
@@ -533,23 +547,68 @@ mutual
 /-- The abstract constraint attached to the value of the condition expression:
 `not` inverts (name_check_visitor.py:3699), `and` is `AndConstraint.make(reversed(...))` (:3463),
 `or` is the `OrConstraint.make` of `extract_constraints` on the union of the operand values. -/
-def BCond.ac : BCond → AC
-  | .leaf c => .k c.k
-  | .not b => b.ac.invert
-  | .and bs => AC.mkAnd (BCond.acL bs).reverse
-  | .or bs => AC.mkOr (BCond.acL bs)
-def BCond.acL : List BCond → List AC
+def BCond.ac (T : BoolTable) : BCond → AC
+  | .leaf c => .k (c.k T)
+  | .not b => (b.ac T).invert
+  | .and bs => AC.mkAnd (BCond.acL T bs).reverse
+  | .or bs => AC.mkOr (BCond.acL T bs)
+def BCond.acL (T : BoolTable) : List BCond → List AC
   | [] => []
-  | b :: bs => b.ac :: BCond.acL bs
+  | b :: bs => b.ac T :: BCond.acL T bs
 end
 
 /-- **The narrowed type** of a variable of type `v` in the branch of `if <c>` taken when the
 condition evaluates to `pol` (`visit_If`: the body gets the constraint, the else branch its
 inverse). -/
 def narrow (tbl : ClassTable) (T : BoolTable) (v : Ty) (c : Cond) (pol : Bool) : Ty :=
-  constrainKs tbl T v [if pol then c.k else c.k.invert]
+  constrainKs tbl T v [if pol then c.k T else (c.k T).invert]
 
 def narrowB (tbl : ClassTable) (T : BoolTable) (v : Ty) (b : BCond) (pol : Bool) : Ty :=
-  constrain tbl T v (if pol then b.ac else b.ac.invert)
+  constrain tbl T v (if pol then b.ac T else (b.ac T).invert)
+
+/-! ## `match` statements (patma.py, name_check_visitor.py:5666 `visit_Match`) -/
+
+/-- The patterns of the fragment. A **singleton** pattern (`case None` / `case True` / `case False`,
+`visit_MatchSingleton` patma.py:184) tests *identity* (`EqualsPredicate(..., use_is=True)`), a **value**
+pattern (`case 1`, `case "a"`, `case Color.RED`, `visit_MatchValue` :191) tests `==`; `case C():`
+is the class pattern without sub-patterns (:300, `positive_only`), `case _:` the wildcard
+(`AlwaysMatching`), `p | q` the or-pattern (`OrConstraint.make`, :399). -/
+inductive Pat where
+  | singleton (l : Obj)
+  | value (l : Obj)
+  | cls (c : Cls)
+  | wildcard
+  | or (ps : List Pat)
+  deriving Repr, Inhabited
+
+mutual
+/-- the constraint `PatmaVisitor.visit(pattern)` returns -/
+def Pat.ac (T : BoolTable) : Pat → AC
+  | .singleton l => .k ((Cond.is l).k T)
+  | .value l => .k ((Cond.eq l).k T)
+  | .cls c => .k ((Cond.matchClass c).k T)
+  | .wildcard => .k (.predicate .always true)
+  | .or ps => AC.mkOr (Pat.acL T ps)
+def Pat.acL (T : BoolTable) : List Pat → List AC
+  | [] => []
+  | p :: ps => p.ac T :: Pat.acL T ps
+end
+
+/-- what `visit_Match` adds for the cases after a pattern: `AndConstraint.make([pattern]).invert()` -/
+def Pat.negKs (T : BoolTable) (p : Pat) : List K := (AC.mkAnd [p.ac T]).invert.apply
+
+/-- the concrete constraints active in the body of case `i` (`i = ps.length`: after the last
+case, i.e. no case matched): the inverses of all earlier patterns, then the pattern itself -/
+def caseKs (T : BoolTable) (ps : List Pat) (i : Nat) : List K :=
+  ((ps.take i).flatMap (Pat.negKs T)) ++ (match ps[i]? with | some p => (p.ac T).apply | none => [])
+
+/-- the type of the subject variable in the body of case `i` / on the fall-through path -/
+def matchBody (tbl : ClassTable) (T : BoolTable) (v : Ty) (ps : List Pat) (i : Nat) : Ty :=
+  constrainKs tbl T v (caseKs T ps i)
+
+/-- the type of the subject after the statement when no body leaves the function: the case scopes
+and the fall-through scope are combined -/
+def matchAfter (tbl : ClassTable) (T : BoolTable) (v : Ty) (ps : List Pat) : Ty :=
+  unite ((List.range (ps.length + 1)).map (matchBody tbl T v ps))
 
 end Pya.C02
